@@ -7,6 +7,10 @@ package ackhandler
 //	sph-pn*      BFS over the real sentPacketHandler / uSentPacketHandler: packet numbers strictly
 //	             increasing per space (Retry, key drops, 0-RTT included), Peek == Pop, and the length
 //	             chosen by PeekPacketNumber decodes for every receiver state consistent with the ACKs
+//	sph-pn-uquic-edge  the same BFS for the spec-driven client with first Initial packet numbers next to
+//	             2^8, 2^16, 2^24, 2^32 and every spec'd length, Initial space only, with the loss timer
+//	uquic-pn-grid  every short (sent, acknowledged, lost, Retry) history of Initial packets for a grid of
+//	             first packet numbers x spec'd lengths / length lists (c05_uquic_test.go)
 
 import (
 	"encoding/json"
@@ -26,6 +30,8 @@ func TestVerifC05Ack(t *testing.T) {
 		c05SphPart("sph-pn-server", c05SphCfg{pers: protocol.PerspectiveServer}),
 		c05SphPart("sph-pn-edge", c05SphCfg{pers: protocol.PerspectiveClient, start: 1<<15 - 3}),
 		c05SphPart("sph-pn-uquic", c05SphCfg{pers: protocol.PerspectiveClient, uquic: true}),
+		c05SphPart("sph-pn-uquic-edge", c05SphCfg{pers: protocol.PerspectiveClient, uquic: true, specs: c05UEdgeSpecs(), initialOnly: true}),
+		c05UGridPart(),
 	}, func(msg string) { t.Fatal(msg) })
 }
 
